@@ -14,8 +14,8 @@ from pyvc.concrete import Gen
 META = {
     "level": "other",
     "technique": "contract-based deductive verification (pyvc: loop invariants + SMT) of vsg/tokens.py for all strings; bounded stand-ins for parse/emit round trip and CLI no-rewrite",
-    "text": "Proved for every string, with no length bound: join(tokens.create(s)) == s and the tokenizer raises nothing (all 35 functions of vsg/tokens.py under contract or inlined into a verified caller; obligations regenerated from the real AST on every run). The remaining clauses (emit(parse(x)) == x with every token classified; a clean file is never rewritten) depend on the 170-module classifier and the CLI and are checked as labelled bounded stand-ins over the repository's fixture corpus, hence level 'other' and not 'proof'.",
-    "note": "Trusted: pyvc itself, SMT solvers for unsat, uninterpreted str predicates with CPython-validated lemma schemas (pyvc/axioms.py). Not under contract: vsg/vhdlFile/classify/*, vhdlFile._processFile, apply_rules (bounded only here; apply_rules control flow is under contract in C16).",
+    "text": "Proved for every string, with no length bound: join(tokens.create(s)) == s and the tokenizer raises nothing (all 35 functions of vsg/tokens.py under contract or inlined into a verified caller; obligations regenerated from the real AST on every run). Also proved: get_lines() is the per-line concatenation of the token values (emit loses nothing), whitespace.classify replaces raw items one for one keeping every value, and the driver never writes a file in which nothing was fixed. That parsing classifies every token and keeps every value depends on the 170-module classifier and is checked as a labelled bounded stand-in over the repository's fixture corpus (as is the clean-file clause through the real CLI), hence level 'other' and not 'proof'.",
+    "note": "Trusted: pyvc itself, SMT solvers for unsat, uninterpreted str predicates with CPython-validated lemma schemas (pyvc/axioms.py). Clause (c) is a postcondition of the driver apply_rules (proved: without --fix the ghost file system is unchanged; with --fix the file is written exactly when some _fix_violation ran: rule_list.fix sets had_violations iff the fix log grew). Not under contract: vsg/vhdlFile/classify/* (except whitespace.classify), vhdlFile._processFile.",
 }
 
 ALPHABET = list("ab1e.'\"\\ (;-*/=?<>x\t:&,")
